@@ -5,9 +5,11 @@ CONSTANTS
   Drawings = 1
   Kinds = {"rect", "dia"}
   MutSeq <- MutThmQ
-  Modes = {"any"}
+  ModeSeq <- ModeAny
   MaxSegs = 26
   Styles = {}
+  RolePats <- TwoRolePats
   Theorems = TRUE
+  Tiles = FALSE
 INVARIANTS RayIndependent FillIsXor CancelSound CatalogueValid JudgeAcceptsReference JudgeRejectsSpoiled
 CHECK_DEADLOCK FALSE
